@@ -59,7 +59,7 @@ func (v regView) obs(w *World, ctx sdk.Context, id uint64) regObs {
 			return o
 		}
 		c := r.Wrkchain
-		o = regObs{Found: true, Meta: []string{c.Moniker, c.Name, c.Genesis, c.Type}, Owner: c.Owner, RegTime: c.RegTime, Num: c.NumBlocks, First: c.LowestHeight, Last: c.Lastblock}
+		o = regObs{Found: true, Meta: []string{c.Moniker, c.Name, c.Genesis, c.Type}, Owner: canonAddr(c.Owner), RegTime: c.RegTime, Num: c.NumBlocks, First: c.LowestHeight, Last: c.Lastblock}
 		s, err := k.WrkChainStorage(g, &wrkchaintypes.QueryWrkChainStorageRequest{WrkchainId: id})
 		if err != nil {
 			o.StoreErr = err
@@ -74,7 +74,7 @@ func (v regView) obs(w *World, ctx sdk.Context, id uint64) regObs {
 		return o
 	}
 	c := r.Beacon
-	o = regObs{Found: true, Meta: []string{c.Moniker, c.Name}, Owner: c.Owner, RegTime: c.RegTime, Num: c.NumInState, First: c.FirstIdInState, Last: c.LastTimestampId}
+	o = regObs{Found: true, Meta: []string{c.Moniker, c.Name}, Owner: canonAddr(c.Owner), RegTime: c.RegTime, Num: c.NumInState, First: c.FirstIdInState, Last: c.LastTimestampId}
 	s, err := k.BeaconStorage(g, &beacontypes.QueryBeaconStorageRequest{BeaconId: id})
 	if err != nil {
 		o.StoreErr = err
@@ -92,14 +92,14 @@ func (v regView) rec(w *World, ctx sdk.Context, id, key uint64) recObs {
 			return recObs{Err: err}
 		}
 		b := r.Block
-		return recObs{Found: true, Fields: []string{b.Blockhash, b.Parenthash, b.Hash1, b.Hash2, b.Hash3}, Time: b.SubTime, Key: b.Height, Owner: r.Owner}
+		return recObs{Found: true, Fields: []string{b.Blockhash, b.Parenthash, b.Hash1, b.Hash2, b.Hash3}, Time: b.SubTime, Key: b.Height, Owner: canonAddr(r.Owner)}
 	}
 	r, err := w.Ref.App.BeaconKeeper.BeaconTimestamp(g, &beacontypes.QueryBeaconTimestampRequest{BeaconId: id, TimestampId: key})
 	if err != nil || r.Timestamp == nil {
 		return recObs{Err: err}
 	}
 	t := r.Timestamp
-	return recObs{Found: true, Fields: []string{t.Hash}, Time: t.SubmitTime, Key: t.TimestampId, Owner: r.Owner}
+	return recObs{Found: true, Fields: []string{t.Hash}, Time: t.SubmitTime, Key: t.TimestampId, Owner: canonAddr(r.Owner)}
 }
 
 // keysInState lists the record keys actually present in state, in store order.
@@ -650,6 +650,9 @@ func (m *monC09) checkAll(w *World, ctx sdk.Context) {
 		}
 		// plus the registrations injected through the genesis document, which the models do not follow
 		extra := w.T.Knobs.ManyRegs
+		if w.T.Knobs.GenesisRegUpper && extra > 0 {
+			extra-- // registration 1 is followed by the models
+		}
 		if br := w.T.Knobs.BigReg; br != nil && br.Kind == v.kind {
 			extra++
 		}
